@@ -208,5 +208,5 @@ def units(tier):
     for sp in (0, 1):
         for ch in (1, 0): u.append(('gravcomp_%s_%s' % ('sparse' if sp else 'dense', 'chain' if ch else 'fork'), 'unit_gravcomp', {'sparse': sp, 'chain': ch}))
     for nt in ([1] if tier == 'quick' else [1, 2]):
-        for f in ((0, 3) if tier == 'quick' else (0, 1, 2, 3)): u.append(('tendon_nt%d_f%d' % (nt, f), 'unit_tendon', {'nt': nt, 'flags': f}))
+        for f in (0, 1, 2, 3): u.append(('tendon_nt%d_f%d' % (nt, f), 'unit_tendon', {'nt': nt, 'flags': f}))
     return u
